@@ -163,6 +163,20 @@ def expected_outputs(op):
     elif "opts" in op and op["opts"].get("save_plot"):
         paths.append(op["opts"]["save_plot"])
     for path in paths:
+        if path.endswith("."):
+            # "plot.": matplotlib strips the dot and appends its default format
+            base = path[:-1]
+            exact = [e for e in exact if not e.startswith(base + "_")]
+            globs = globs + [f"{base}_*"]
+            continue
+        if os.path.splitext(path)[1] not in ("", ".pdf", ".png", ".svg",
+                                             ".PDF", ".Png"):
+            # a suffix that is no image format ("plot_0.5"): whatever files
+            # the export decides to write carry the plot's base name
+            base = os.path.splitext(path)[0]
+            exact = [e for e in exact if not e.startswith(base + "_")]
+            globs = globs + [f"{base}_*"]
+            continue
         if not os.path.splitext(path)[1]:
             # no extension: one file per figure, and matplotlib appends its
             # default format to each name
@@ -409,7 +423,7 @@ class C17(Check):
         elif kind == "lib_export":
             op.update(path=sub + "plot" + rng.choice([".pdf", ".png", ".svg",
                                                       ".png", ".PDF", ".Png",
-                                                      ""]),
+                                                      "", ".", "_0.5"]),
                       plot_split=rng.random() < 0.3)
         elif kind == "lib_serialize":
             op.update(path=sub + "plots.pkl")
@@ -421,7 +435,7 @@ class C17(Check):
             if r > 0.45 and rng.random() < 0.5:
                 o["save_plot"] = sub + "plot" + rng.choice([".pdf", ".png",
                                                             ".PDF", ".pdf",
-                                                            ""])
+                                                            "", ".", "_0.5"])
             if rng.random() < 0.15:
                 o["serialize_plot"] = sub + "plots.pkl"
             if not o:
@@ -606,6 +620,20 @@ class C17(Check):
     def make_case(self, rng, tier, index):
         nops = rng.randint(3, 12)
         ops = [self.gen_op(rng) for _ in range(nops)]
+        if rng.random() < 0.4:
+            # the same command once more: everything the first run wrote is
+            # now a pre-existing target, whatever it decided to call it
+            i = rng.randrange(len(ops))
+            again = copy.deepcopy(ops[i])
+            again["pre"] = {}
+            again.pop("late", None)
+            again.pop("fault", None)
+            nq = again.get("title_questions", 0)
+            again["answers"] = list(again["answers"][:nq]) + [
+                rng.choice(["y", "n", "", "<EOF>", "n", "no"])
+                for _ in range(rng.randint(0, 4))]
+            again["rerun"] = True
+            ops.insert(rng.randint(i + 1, len(ops)), again)
         return {"kind": "history", "seed": rng.getrandbits(31), "ops": ops}
 
     def fixed_cases(self, tier):
